@@ -25,6 +25,7 @@ COPY = [
     "hugr-core/src/ops",
     "hugr-core/src/ops.rs",
     "hugr-model/src/v0/ast/python.rs",
+    "hugr-model/src/v0/mod.rs",
     "hugr-py/pyproject.toml",
 ]
 
